@@ -387,6 +387,8 @@ func C07Grid(tier string) []*Config {
 		add(cfg(br, 1, 1, 2, 0, true, 1, "no", "f52", 2, 0, "standard", "classes"))
 	}
 	add(cfg([]int64{4, 6, 5}, 0, 1, 2, 3, false, 2, "pot", "r52", 2, 0, "standard", "classes"))
+	add(cfg([]int64{3, 4}, 0, 1, 2, 0, false, 0, "no", "f52", 2, 2, "standard", "classes"))
+	add(cfg([]int64{3, 2, 4}, 0, 1, 2, 0, false, 1, "no", "t52", 2, 2, "standard", "classes"))
 	add(cfg([]int64{4, 6}, 0, 1, 2, 0, false, 0, "no", "f36", 2, 0, "short", "classes"))
 	add(cfg([]int64{4, 3, 5}, 0, 1, 2, 0, false, 0, "no", "sv:2,0,2", 4, 2, "standard", "classes"))
 	add(cfg([]int64{3, 3, 3, 3}, 0, 1, 2, 0, false, 0, "no", "sv:1,0,1,1", 2, 0, "standard", "classes"))
